@@ -181,3 +181,33 @@ def lemma_int_float_roundtrip(timeout_ms=60000):
     s2.add(n == z3.BitVecVal(2 ** 53 + 1, 64), back != n)
     r2 = str(s2.check())
     return {"holds_up_to_2**53": r1 == "unsat", "fails_at_2**53+1": r2 == "sat", "verdicts": [r1, r2], "time_s": round(time.time() - t0, 2)}
+
+
+def int_to_double_selftest(seed, n=2000):
+    """the round-half-even model of float(int) above 2**53 (models.int_to_double): its concrete twin against CPython on random and
+    boundary integers up to 2**64, and the z3 term against CPython on pinned values"""
+    import z3
+    from . import models
+    rnd = random.Random(seed)
+    t0 = time.time()
+    vals = [2 ** 53, 2 ** 53 + 1, 2 ** 53 + 2, 2 ** 53 + 3, 2 ** 54 + 2, 2 ** 54 + 6, 2 ** 63 + 1024, 2 ** 63 + 1025, 2 ** 64, 2 ** 64 - 1, 2 ** 64 - 1023, 2 ** 64 - 1024,
+            2 ** 60 + 64, 2 ** 60 + 65, 2 ** 60 + 191, 2 ** 60 + 192]
+    for _ in range(n):
+        e = rnd.randint(50, 64)
+        vals.append(min(2 ** 64, rnd.randint(2 ** (e - 1), 2 ** e)))
+    bad = [v for v in vals for sg in (1, -1) if models.round_half_even_to_double(sg * v) != int(float(sg * v))]
+
+    class _NoCut(object):
+        def cut(self, *a):
+            pass
+    t = z3.Int("t")
+    expr = models.int_to_double(_NoCut(), t)
+    sol = z3.Solver()
+    sol.set("timeout", 20000)
+    for v in vals[:24] + [-x for x in vals[:8]]:
+        sol.push()
+        sol.add(t == v, expr != int(float(v)))
+        if str(sol.check()) != "unsat":
+            bad.append(v)
+        sol.pop()
+    return {"values": len(vals), "disagreements": len(bad), "examples": bad[:3], "time_s": round(time.time() - t0, 2)}
